@@ -14,13 +14,17 @@ def run(tier, seed, verdict):
     runs = [mr.ModelRun("MC_C12_quick.cfg" if quick else "MC_C12.cfg", seed, probes=("reopen", "free_name"),
                         name_pools=[0, 1, 2, 4], accept=refused_only, stride=1 if quick else 2),
             mr.ModelRun("MC_C12_free.cfg", seed + 1, probes=("free_name",), name_pools=[0, 2, 4],
-                        accept=refused_only, stride=10 if quick else 1)]
+                        accept=refused_only, stride=10 if quick else 1),
+            # extend() on lists that already have members: a member named again before an item that is refused
+            mr.ModelRun("MC_C12_extend.cfg", seed + 2, probes=(), name_pools=[0, 1],
+                        accept=lambda tx: tx["act"]["name"] == "LinkExtend" and tx["act"]["out"] != "ok", stride=1)]
     level, cov, assumptions = run_property(
         "C12", verdict, runs,
         require_actions=("Create:refused:DuplicateName", "CreateBad:refused:EmptyName", "CreateBad:refused:SlashName",
                          "CreateBad:refused:EmptyType", "LinkAppend:refused:WrongKind", "LinkAppend:refused:ForeignBlock",
                          "SetRole:refused:WrongKind", "LinkRemove:refused:NotMember", "DeleteAbsent:refused:NotFound",
-                         "SetAttr:refused:NoneType", "ClearRole:refused:Required"),
+                         "SetAttr:refused:NoneType", "ClearRole:refused:Required", "CreateBad:refused:BadArgument",
+                         "LinkExtend:refused:BadItem"),
         tlc_props=["RefusedUnchanged"],
         also_own=lambda f: f["out"] != "ok" and f["stage"].startswith("reopen"),
         rule="every refused call (fault class x call site) is a self-loop of the state graph and is executed at every "
@@ -28,8 +32,11 @@ def run(tier, seed, verdict):
              "files up to 4 objects); full projection before vs. after, again after reopen; after a create refused "
              "for an empty type the same name must be accepted by a valid call",
         assumptions=["fault classes driven here: duplicate / empty / slash name, empty type, type=None, wrong kind, "
-                     "foreign block, not a member, unknown name / out-of-range index on delete, positions=None; the "
-                     "data-type, shape, ticks and value-type classes are driven by the array / metadata checks"])
+                     "foreign block, not a member, unknown name / out-of-range index on delete, positions=None, an "
+                     "argument of the wrong kind (element type, unconvertible data, non-numeric position, cell that "
+                     "does not fit its column), extend() with a legal item before an illegal one; the shape, ticks "
+                     "and value-type classes are driven by the refused transitions of the array / metadata / frame / "
+                     "dimension-link models below"])
     # refused calls of the other stateful modules: only the refused transitions are replayed here
     refused = lambda tx: tx["act"].get("out", "ok") != "ok"  # noqa
     from . import c10, c16, dimlink, c05
